@@ -375,4 +375,38 @@ func init() {
 		explanation: "connection limit: solver-chosen histories of accepted/rejected/closed connections through the real ServeConn + overloader hooks; races: two concurrent PostAccept for the last slot and k concurrent take() against one refill tick explored over all schedules with <= 2 pre-emptions (schedule choices are decisions of the symbolic execution); rate limit: sequential take/refill arithmetic",
 		bounds:      "N <= 2, histories <= 4 (quick) / 5, 2 racing accepts, <= 5 takers + 1 tick, <= 2 pre-emptions",
 	})
+	registerCheck(&checkSpec{
+		id: "C13", dirs: []string{"."}, level: "other",
+		jobs: func(tier string) []job {
+			js := []job{J(".", "VX_C13_Redial", 1, 0, 1), J(".", "VX_C13_Redial", 1, 1, 0), J(".", "VX_C13_Redial", 2, 0, 0), J(".", "VX_C13_Redial", 2, 1, 1)}
+			if tier == "thorough" {
+				js = append(js, J(".", "VX_C13_Redial", 9, 0, 1), J(".", "VX_C13_Redial", 2, 0, 1), J(".", "VX_C13_Redial", 1, 0, 0))
+			}
+			return js
+		},
+		assumptions: append(append([]string{}, rootAssume...), "dial hook (overlay H-dial): one line inserted at the top of Dialer.dialOne of the current /repo/dialer.go consults a harness hook; each dial attempt's outcome and each redial hook verdict is a solver variable; redial intervals (time.Sleep) are no-ops; unlimited budget capped at 8 attempts"),
+		explanation: "the real peer.Dial (redial closure), redialForClient, dialWithRetry, redialCounter, readDisconnected, write and AsyncCall retry loops are executed; connection loss while a call is in flight; every dial attempt outcome and hook verdict symbolic (forked); no-hang is a scheduler-level check (a blocked goroutine with no runnable one is a violation)",
+		bounds:      "redial budget 1, 2 (and unlimited capped at 8 attempts in thorough); one loss, one later call; sequential schedules",
+	})
+	registerCheck(&checkSpec{
+		id: "C17", dirs: []string{"plugin/secure", "."}, level: "other",
+		jobs: func(tier string) []job {
+			var js []job
+			for mark := 0; mark <= 1; mark++ {
+				for acc := 0; acc <= 2; acc++ {
+					js = append(js, J("plugin/secure", "VX_C17_Call", mark, acc, 1, 1))
+				}
+			}
+			js = append(js, J("plugin/secure", "VX_C17_Call", 1, 0, 0, 1), J("plugin/secure", "VX_C17_Call", 0, 0, 0, 1), J("plugin/secure", "VX_C17_Call", 1, 1, 1, 0),
+				J("plugin/secure", "VX_C17_Push", 1, 1, 1), J("plugin/secure", "VX_C17_Push", 0, 1, 1), J("plugin/secure", "VX_C17_Push", 1, 0, 1),
+				J("plugin/secure", "VX_C17_PushRedial", 0, 1), J("plugin/secure", "VX_C17_PushRedial", 1, 1))
+			if tier == "thorough" {
+				js = append(js, J("plugin/secure", "VX_C17_Call", 1, 0, 1, 3), J("plugin/secure", "VX_C17_Call", 1, 1, 0, 3), J("plugin/secure", "VX_C17_Push", 1, 1, 3), J("plugin/secure", "VX_C17_PushRedial", 0, 3))
+			}
+			return js
+		},
+		assumptions: append(append([]string{}, rootAssume...), "stub S-AES: goutil.AESEncrypt yields fresh ciphertext symbols (hex alphabet) unrelated to the plaintext; AESDecrypt of exactly those symbols with the same key returns the plaintext, with another key an error; 'not in clear on the wire' is structural (no byte of the written frame depends on a plaintext symbol)", "stub S-HASH: MD5 of the (concrete) key computed natively", "envelope marshalled by the gogo-generated Encrypt.Marshal/Unmarshal (interpreted) through the protobuf body codec; arguments/results are raw byte slices"),
+		explanation: "the nine hooks of the secure plugin and the surrounding real AsyncCall/Push/bindCall/handleCall/bindReply/handleReply plumbing are executed on two peers whose frames the harness carries between scripted connections; marker matrix (secure x accept-secure), same/different key, push during redial",
+		bounds:      "bodies <= 3 bytes; one call/push per path; AES and MD5 internals outside the claim",
+	})
 }
